@@ -35,12 +35,20 @@ type MHash struct {
 	started bool
 	bad     bool // not one contiguous range of one source
 	Writes  int
+	isText  bool   // hashing the bytes of strings (string mode)
+	text    string // their concatenation
 }
 
 func Sha256_New() hash.Hash { return &MHash{} }
 
 func (h *MHash) Write(p []byte) (int, error) {
 	h.Writes++
+	if t, ok := vsym.AsString(p); ok && !h.started {
+		// bytes of a (possibly symbolic) string: accumulate the text
+		h.isText = true
+		h.text += t
+		return len(p), nil
+	}
 	if len(p) == 0 {
 		return 0, nil
 	}
@@ -61,6 +69,9 @@ func (h *MHash) Write(p []byte) (int, error) {
 
 // Sum forks on "the hashed bytes are exactly blob B".
 func (h *MHash) Sum(b []byte) []byte {
+	if h.isText {
+		return vsym.DigestOf(h.text)
+	}
 	digest := OtherHash
 	if h.started && !h.bad && h.start == 0 {
 		for _, bl := range Blobs {
